@@ -32,7 +32,7 @@ def run(chk, tier):
     self_reference(chk, dprog, cfg)
     compact_bound(chk, dprog, cfg)
     n = witness.record(chk, "C13", tier)
-    chk.floor("R13.5", n, 26, "witness programs for C13 (24 positive, 2 negative)")
+    chk.floor("R13.5", n, 28, "witness programs for C13 (26 positive, 2 negative)")
     accepted_corpus(chk)
     chk.trusted += ["rustc's type checker decides each witness", "syn / quote"]
     chk.assumptions += ["definitions outside the witness corpus are covered by the structural rules only"]
